@@ -11,7 +11,7 @@ from __future__ import annotations
 import random
 
 from hv import core
-from hv.engine_harness import Harness, program_lines
+from hv.engine_harness import METRIC_ATTRS, Harness, make_stateless, program_lines
 from hv.props.c01 import gen_program
 from hv.props.c02 import gen_future_program
 
@@ -36,20 +36,66 @@ def _sch(rng, prog):
             rng.choice([0, 0, 0, 1])]
 
 
+# (operator, twice the threshold) pairs around the values the watched attributes take; many of them first
+# become true while the attribute is 0 / False — a value like any other, not a missing one
+METRIC_CONDS = {
+    0: [("le", 0), ("eq", 0), ("lt", 2), ("lt", 1), ("le", 1), ("ge", 0), ("ne", 0), ("gt", -2), ("le", -2), ("eq", 2),
+        ("lt", 0), ("ge", 4), ("ne", 2), ("gt", 0)],                                                  # level
+    1: [("eq", 0), ("le", 0), ("lt", 2), ("lt", 1), ("ge", 2), ("gt", 0), ("ne", 0), ("ge", 4), ("eq", 2), ("ge", 0)],  # inflight
+    2: [("eq", 0), ("eq", 2), ("ne", 0), ("le", 0), ("ge", 2), ("lt", 2), ("gt", 0), ("ne", 2)],      # _crashed (a bool)
+    3: [("ge", 0), ("eq", 0), ("ne", 0)],                                                             # no such attribute
+}
+
+
 def _bp(rng, prog):
     kinds = sorted({k for _, k in _targets(prog)})
     r = rng.random()
-    if r < 0.4:
-        return ["BT", rng.choice(prog["times"]), rng.choice([0, 1])]
-    if r < 0.75:
-        return ["BC", rng.randint(1, 12), rng.choice([0, 1, 1])]
-    return ["BK", rng.choice(kinds), rng.choice([0, 1])]
+    if r < 0.3:
+        return ["BT", rng.choice(prog["times"] + [0]), rng.choice([0, 1])]
+    if r < 0.5:
+        return ["BC", rng.choice([0, 1, 1, 2, 3, 5, 8, 12]), rng.choice([0, 1, 1])]
+    if r < 0.62:
+        return ["BK", rng.choice(kinds), rng.choice([0, 1])]
+    if r < 0.7:
+        # ConditionBreakpoint(lambda ctx: ctx.events_processed == n)
+        return ["BX", rng.choice([1, 1, 2, 3, 5, 8]), rng.choice([0, 0, 1])]
+    # MetricBreakpoint on an attribute of a scripted entity
+    return _bm(rng, prog)
+
+
+def add_levels(rng, prog):
+    """give some entities a `level` attribute that handlers drive down to (and through) zero and back"""
+    prog["levels"] = {str(e): rng.choice([3, 2, 1, 1, 0, -1]) for e in range(prog["ents"]) if rng.random() < 0.7}
+    prog["lvl_float"] = rng.random() < 0.3
+    for d in prog["defs"]:
+        if rng.random() < 0.6:
+            seg = rng.choice(d["segs"])
+            x = rng.randrange(prog["ents"]) if rng.random() < 0.3 else d["ent"]
+            r = rng.random()
+            act = ["M", x, 0, -1] if r < 0.6 else ["M", x, 0, 1] if r < 0.8 else ["M", x, 1, rng.choice([0, 0, 2, -1])]
+            seg["acts"].insert(rng.randrange(len(seg["acts"]) + 1), act)
+
+
+def _bm(rng, prog):
+    attr = rng.choice([0, 0, 0, 0, 1, 1, 2, 3] if prog.get("levels") else [1, 1, 1, 2, 2, 0, 3])
+    op, thr2 = rng.choice(METRIC_CONDS[attr])
+    ents = [int(e) for e in (prog.get("levels") or {})] if attr == 0 and prog.get("levels") and rng.random() < 0.8 else list(range(prog["ents"]))
+    return ["BM", rng.choice(ents), attr, op, thr2, rng.choice([0, 0, 1])]
 
 
 def gen_script(rng: random.Random, prog):
     shape = rng.random()
     cmds = []
-    if shape < 0.2:
+    if rng.random() < (0.45 if prog.get("levels") else 0.12):
+        # attribute watches: one to three MetricBreakpoints, then the run is driven on through every pause
+        cmds += [_bm(rng, prog) for _ in range(rng.randint(1, 3))]
+        if rng.random() < 0.3:
+            cmds.insert(rng.randrange(len(cmds) + 1), _bp(rng, prog))
+        cmds.append(["G"])
+        for _ in range(rng.randint(2, 8)):
+            r = rng.random()
+            cmds.append(["G"] if r < 0.7 else ["S", rng.choice([1, 2, 3])] if r < 0.9 else _bm(rng, prog))
+    elif shape < 0.2:
         # several breakpoints armed at once, then run / resume / step until they have all had their chance
         if rng.random() < 0.4:
             cmds += [["P"], ["G"]]
@@ -112,22 +158,6 @@ def gen_script(rng: random.Random, prog):
     return cmds
 
 
-def make_stateless(prog):
-    """entity-side state survives reset(): keep only programs whose entities have none (no futures, crash
-    flags, event handles, pre-created events), and pre-run events that reset() replays faithfully"""
-    for p in prog["pre"]:
-        p["hook"] = 0
-        p["cancelled"] = False
-    prog["defs"] = [d for d in prog["defs"] if not any(
-        a[0] in ("R", "A", "L", "N", "C", "U") for s in d["segs"] for a in s["acts"]) and not any(
-        s["term"][0] == "W" for s in d["segs"])]
-    # handles to events (for cancel) are entity state too, and the replayed pre-run events are
-    # new objects the scripted entities hold no handle to
-    prog["defs"] = [dict(d, segs=[dict(s, acts=[a for a in s["acts"] if a[0] not in ("X", "RH", "EA")]) for s in d["segs"]])
-                    for d in prog["defs"]]
-    prog.pop("held", None)   # pre-created events held by entities are entity state as well
-
-
 def pre_run_injections(script):
     """the SCH commands that take effect before a run() (they join the pre-run schedule that reset() replays),
     as (tgt, kind, time, daemon); the clock is 0 whenever no run has started"""
@@ -169,13 +199,19 @@ class C04(core.Property):
         "HappyModel.C04.injected_is_youngest",
         "HappyModel.C04.session_inv",
         "HappyModel.C04.session_fifo",
+        "HappyModel.C04.metric_hit_iff",
+        "HappyModel.C04.metric_zero_is_a_value",
+        "HappyModel.C04.metric_missing_never_fires",
+        "HappyModel.C04.metric_breakpoint_first",
     ]
     partial_theorems = {}
     quick_cases = 900
     thorough_cases = 30000
     case_timeout_s = 30
     rule = ("a C01 or C02 program × an observation mode: plain / InMemoryTraceRecorder / enable_event_tracing() / control attached and "
-            "driven by a generated script of pause, run, step(n), resume, time / count / event-type breakpoints (one-shot or not, "
+            "driven by a generated script of pause, run, step(n), resume, time / count / event-type / metric (entity attribute level, "
+            "inflight, _crashed or a missing one, all six operators, thresholds at and around 0 so that conditions first hold at a falsy "
+            "value) / condition (events_processed == n) breakpoints (one-shot or not, "
             "several armed at once), clear, pausing on_event hook, reset() between rounds (after pause / step / breakpoint rounds, "
             "with and without stateless entities), sim.schedule() of an event from outside before a run and while it is paused "
             "(timestamps on the program's tie grid or at the current clock) / reset()+run(). After every control command get_state() "
@@ -201,6 +237,8 @@ class C04(core.Property):
         mode = rng.choice(MODES)
         prog["mode"] = mode
         if mode == "ctl":
+            if rng.random() < 0.5:
+                add_levels(rng, prog)
             prog["script"] = gen_script(rng, prog)
             if any(c[0] == "RST" for c in prog["script"]):
                 # a process left parked on a future by the abandoned run would meet its successor there (the
@@ -265,7 +303,8 @@ class C04(core.Property):
             out = h.run()
             return out
         # control script
-        from happysimulator.core.control.breakpoints import EventCountBreakpoint, EventTypeBreakpoint, TimeBreakpoint
+        from happysimulator.core.control.breakpoints import (ConditionBreakpoint, EventCountBreakpoint, EventTypeBreakpoint,
+                                                             MetricBreakpoint, TimeBreakpoint)
         ctl = sim.control
         stream = []     # d / fr / st lines in order of occurrence
 
@@ -274,7 +313,16 @@ class C04(core.Property):
             stream.append(f"{hd} {s.current_time.nanoseconds} {s.events_processed} {1 if s.is_paused else 0} {1 if s.is_running else 0}")
 
         # a read-only observer: ordinal, time and type of every processed event
-        ctl.on_event(lambda ev: stream.append(f"d {ctl.get_state().events_processed} {ev.time.nanoseconds} {ev.event_type[1:]}"))
+        def observe(ev):
+            n = ctl.get_state().events_processed
+            stream.append(f"d {n} {ev.time.nanoseconds} {ev.event_type[1:]}")
+            # the attributes a MetricBreakpoint may watch, as a user's own hook reads them (judge input only)
+            vals = []
+            for e in h.ents:
+                vals += ["-" if e.level is None else str(int(e.level)), str(e.inflight), str(int(e._crashed))]
+            stream.append(f"dm {n} " + " ".join(vals))
+
+        ctl.on_event(observe)
 
         def driver(sim):
             summary = None
@@ -298,6 +346,13 @@ class C04(core.Property):
                     ctl.add_breakpoint(EventCountBreakpoint(count=c[1], one_shot=bool(c[2])))
                 elif op == "BK":
                     ctl.add_breakpoint(EventTypeBreakpoint(event_type=f"k{c[1]}", one_shot=bool(c[2])))
+                elif op == "BM":
+                    thr = c[4] // 2 if c[4] % 2 == 0 and c[4] % 4 == 0 else c[4] / 2      # ints and floats as thresholds
+                    ctl.add_breakpoint(MetricBreakpoint(entity_name=f"e{c[1]}", attribute=METRIC_ATTRS[c[2]], operator=c[3],
+                                                        threshold=thr, one_shot=bool(c[5])))
+                elif op == "BX":
+                    ctl.add_breakpoint(ConditionBreakpoint(fn=lambda ctx, n=c[1]: ctx.events_processed == n,
+                                                           description=f"processed == {c[1]}", one_shot=bool(c[2])))
                 elif op == "CLR":
                     ctl.clear_breakpoints()
                 elif op == "HP":
@@ -363,7 +418,7 @@ class C04(core.Property):
     def compare_view(self, case, impl_out):
         if case["mode"] == "reset-src":
             return ["judge-only"]
-        return self._parts(impl_out)[0]
+        return [l for l in self._parts(impl_out)[0] if not l.startswith("dm ")]
 
     def model_postprocess(self, case, out):
         return ["judge-only"] if case["mode"] == "reset-src" else out
@@ -373,7 +428,7 @@ class C04(core.Property):
             return None
         obs, trace, ref = self._parts(impl_out)
         ctl = case["mode"] == "ctl"
-        stream = [l for l in obs if l.split(" ", 1)[0] in ("d", "st", "fr")]
+        stream = [l for l in obs if l.split(" ", 1)[0] in ("d", "dm", "st", "fr")]
         log = obs[len(stream):]
         body = [f"mode {case['mode']}", f"stateless {1 if case.get('stateless') else 0}"]
         if ctl:
